@@ -305,6 +305,15 @@ def approxValue (x : Secs) : Rat :=
   | .int n => (approxCoarse ⟨(n : Rat), false, 0⟩).a.v
   | .float q => (approxCoarse (approxFloat q)).a.v
 
+/-- the `parts` of `timestr_approx`: days and hours when needed, minutes unless omitted or
+    nothing but seconds is there, seconds unless omitted -/
+def approxParts (d h m s frac p : Nat) (omitMin omitSec : Bool) (sep : List Char) : List Char :=
+  joinParts sep (
+    (if d ≠ 0 then [natStr d ++ ['d']] else []) ++
+    (if d ≠ 0 ∨ h ≠ 0 then [natStr h ++ ['h']] else []) ++
+    (if omitMin = false ∧ (d ≠ 0 ∨ h ≠ 0 ∨ m ≠ 0) then [natStr m ++ ['m']] else []) ++
+    (if omitSec = false then [fixedStr s frac p ++ ['s']] else []))
+
 /-- the printing part of `timestr_approx` on ticks -/
 def approxRender (r : ARounded) (sep : List Char) : List Char :=
   let p := if r.a.isFloat then r.a.sprec else 0
@@ -317,11 +326,7 @@ def approxRender (r : ARounded) (sep : List Char) : List Char :=
   let s := s % Gen.secPerHour
   let m := if r.omitMin then 0 else s / Gen.secPerMin
   let s := if r.omitMin then s else s % Gen.secPerMin
-  joinParts sep (
-    (if d ≠ 0 then [natStr d ++ ['d']] else []) ++
-    (if d ≠ 0 ∨ h ≠ 0 then [natStr h ++ ['h']] else []) ++
-    (if !r.omitMin ∧ (d ≠ 0 ∨ h ≠ 0 ∨ m ≠ 0) then [natStr m ++ ['m']] else []) ++
-    (if !r.omitSec then [fixedStr s frac p ++ ['s']] else []))
+  approxParts d h m s frac p r.omitMin r.omitSec sep
 
 /-- `timestr_approx(seconds, sep)`; `none` = ValueError (negative) -/
 def timestrApprox (x : Secs) (sep : List Char) : Option (List Char) :=
